@@ -485,7 +485,7 @@ Lemma phase_length_exact : forall s n, InvC s -> fs_ok (pa_fs (a_pa s)) ->
   (0 <= Z.of_nat n < ticks_for inc)%Z ->
   let s' := fold_left adsr_step (repeat ATick n) s in
   a_state s' = a_state s /\ pa_acc (a_pa s') = (Z.of_nat n * inc)%Z /\
-  (Z.of_nat n + 1 = ticks_for inc ->
+  ((Z.of_nat n + 1 = ticks_for inc)%Z ->
    a_state (adsr_step s' ATick) = next_phase (a_state s)).
 Proof.
   intros s n I Hfs T Hacc inc Hn s'.
@@ -568,4 +568,88 @@ Proof.
   { rewrite St. reflexivity. }
   rewrite St in St1. cbn [next_phase] in St1.
   exists n1. split; [lia|exact St1].
+Qed.
+
+(** * Phase duration in real terms *)
+
+Lemma phase_duration : forall fs t, fs_ok fs -> fin_in t (R32 MIN_TIME) (R32 MAX_TIME) ->
+  let N := R32 t * R32 fs in
+  let n := IZR (ticks_for (inc_of fs t)) in
+  1 <= n /\ N * (1 - / 4194304) <= n /\ n <= N / (1 - N / 16777216) + 2.
+Proof.
+  intros fs t Hfs Ht N n.
+  destruct (increment_bounds fs t Hfs Ht) as [[HL HU] HZ]. cbv zeta in HL, HU.
+  destruct Hfs as [Ffs Bfs]. destruct Ht as [Ft Bt].
+  rewrite R32_MIN_TIME, R32_MAX_TIME in Bt.
+  fold N in HL, HU.
+  set (inc := inc_of fs t) in *.
+  destruct (ticks_for_spec inc ltac:(lia)) as [Z1 Z2].
+  assert (Zn : (1 <= ticks_for inc)%Z) by nia.
+  set (I := IZR inc) in *.
+  assert (HI : 4 <= I) by (apply (IZR_le 4); lia).
+  assert (R1 : (n - 1) * I < 16777216).
+  { unfold n, I. change 1 with (IZR 1). rewrite <- minus_IZR, <- mult_IZR.
+    apply IZR_lt. exact Z1. }
+  assert (R2 : 16777216 <= n * I).
+  { unfold n, I. rewrite <- mult_IZR. apply IZR_le. exact Z2. }
+  assert (Rn : 1 <= n) by (apply (IZR_le 1); exact Zn).
+  assert (HN : 1 / 10 <= N <= 3840000).
+  { unfold N. split.
+    - apply Rle_trans with (8589935 / 8589934592 * 100); [lra|].
+      apply Rmult_le_compat; lra.
+    - apply Rle_trans with (20 * 192000); [|lra].
+      apply Rmult_le_compat; lra. }
+  set (X := 16777216 / N) in *.
+  assert (HXN : X * N = 16777216) by (unfold X; field; lra).
+  assert (HXpos : 0 < X) by (unfold X; apply Rdiv_lt_0_compat; lra).
+  split; [exact Rn|]. split.
+  - (* lower bound *)
+    assert (H1 : 16777216 * N <= n * (1 + / 4194304) * 16777216).
+    { apply Rle_trans with (n * I * N).
+      - apply Rmult_le_compat_r; lra.
+      - replace (n * (1 + / 4194304) * 16777216) with (n * (X * (1 + / 4194304) * N)).
+        2:{ replace (X * (1 + / 4194304) * N) with (X * N * (1 + / 4194304)) by ring.
+            rewrite HXN. ring. }
+        rewrite Rmult_assoc. apply Rmult_le_compat_l; [lra|].
+        apply Rmult_le_compat_r; lra. }
+    assert (H2 : N <= n * (1 + / 4194304)) by lra.
+    assert (H3 : N * (1 - / 4194304) <= n * (1 + / 4194304) * (1 - / 4194304)).
+    { apply Rmult_le_compat_r; lra. }
+    apply Rle_trans with (1 := H3).
+    replace (n * (1 + / 4194304) * (1 - / 4194304))
+      with (n * (1 - / 4194304 * / 4194304)) by ring.
+    rewrite <- (Rmult_1_r n) at 2. apply Rmult_le_compat_l; lra.
+  - (* upper bound *)
+    set (u := N / 16777216).
+    assert (Hu : 0 < u <= 2289 / 10000) by (unfold u; lra).
+    assert (HXu : X * u = 1) by (unfold X, u; field; lra).
+    set (e := / 8388608) in *.
+    set (a := 1 - u). set (b := 1 - e - u).
+    assert (Ha : 7711 / 10000 <= a) by (unfold a; lra).
+    assert (Hb : 771 / 1000 <= b) by (unfold b, e; lra).
+    (* I*u > b *)
+    assert (HIu : b < I * u).
+    { assert (H : (X * (1 - e) - 1) * u < I * u) by (apply Rmult_lt_compat_r; lra).
+      replace ((X * (1 - e) - 1) * u) with (X * u * (1 - e) - u) in H by ring.
+      rewrite HXu in H. unfold b. lra. }
+    assert (Hnb : (n - 1) * b < N).
+    { apply Rle_lt_trans with ((n - 1) * (I * u)).
+      - apply Rmult_le_compat_l; lra.
+      - replace ((n - 1) * (I * u)) with ((n - 1) * I * u) by ring.
+        replace N with (16777216 * u) by (unfold u; field).
+        apply Rmult_lt_compat_r; lra. }
+    set (D := N / a).
+    assert (HDa : D * a = N) by (unfold D; field; lra).
+    assert (HDpos : 0 <= D) by (unfold D; apply Rle_mult_inv_pos; lra).
+    assert (HDe : D * e <= b).
+    { apply Rmult_le_reg_r with a; [lra|].
+      replace (D * e * a) with (D * a * e) by ring. rewrite HDa.
+      replace (N * e) with (2 * u) by (unfold u, e; field).
+      unfold a, b, e. nra. }
+    assert (Hab : a = b + e) by (unfold a, b; ring).
+    assert (Hfin : (n - 1) * b < (D + 1) * b).
+    { apply Rlt_le_trans with (1 := Hnb).
+      rewrite <- HDa, Hab. lra. }
+    apply Rmult_lt_reg_r in Hfin; [|lra].
+    change (n <= D + 2). lra.
 Qed.
